@@ -616,6 +616,90 @@ def r15_2(ctx):
             ctx.ob('R15.2', 'frozen:' + k, True, k.split(':')[0], FROZEN_BOUNDS[k])
 
 
+SIZED_COPIES = {'strlcpy': (0, 2), 'strlcat': (0, 2), 'strncpy': (0, 2), 'snprintf': (0, 1),
+                'vsnprintf': (0, 1), 'memcpy': (0, 2), 'memmove': (0, 2), 'memset': (0, 2)}
+
+
+def r15_5(ctx):
+    """a copy bounded by `sizeof(array)` starts at the array: with the destination written
+    as array + d and the size as sizeof(array) - s, d equals s (destination + size is the end
+    of the array, as a symbolic sum).  `strlcpy(p + 1, src, sizeof(buffer))` with p somewhere
+    inside buffer lets the copy run past the end by p + 1 - buffer bytes."""
+    from .C14 import _linsum, canon
+    prog = ctx.prog
+    n_sites = 0
+    for f in prog.fns():
+        if not (f.file.startswith('libyara/') or f.file.startswith('cli/') or ctx.fixture):
+            continue
+        occ = {}
+        for c in sorted(f.calls(), key=lambda x: (x.get('l', 0), x['i'])):
+            spec = SIZED_COPIES.get(c.get('callee'))
+            if spec is None:
+                continue
+            a = f.call_args(c)
+            if len(a) <= max(spec):
+                continue
+            D, S = a[spec[0]], a[spec[1]]
+            szs = [x for x in f.walk(S) if x['k'] == 'sizeof' and '[' in (x.get('of') or '') and
+                   (x.get('of') or '').split('[')[0].strip() in ('char', 'unsigned char', 'uint8_t', 'int8_t',
+                                                                'const char', 'char_t')]
+            if not szs:
+                continue            # byte buffers only: element counts and byte counts coincide
+            ld, lsz = _linsum(f, D), _linsum(f, S)
+            if ld is None or lsz is None:
+                continue
+            n_sites += 1
+            k = occ.get(c['callee'], 0)
+            occ[c['callee']] = k + 1
+            terms = dict(ld[0])
+            for t, cf in lsz[0].items():
+                terms[t] = terms.get(t, 0) + cf
+            terms = {t: cf for t, cf in terms.items() if cf}
+            end = ld[1] + lsz[1]
+            # the one remaining term must be an array of the extent the size was taken from
+            types = {}
+            for e in (D, S):
+                for x in f.walk(e):
+                    if x['k'] in ('ref', 'member'):
+                        types.setdefault(canon(f, x), x.get('t') or '')
+                        sd = cu.stable_def_of(f, x) if x['k'] == 'ref' else None
+                        if sd is not None:
+                            for y in f.walk(sd):
+                                if y['k'] in ('ref', 'member'):
+                                    types.setdefault(canon(f, y), y.get('t') or '')
+            ok = False
+            why = ''
+            if len(terms) == 1 and list(terms.values()) == [1]:
+                arr = list(terms)[0]
+                ty = types.get(arr, '')
+                ext = None
+                if '[' in ty and ty.rstrip().endswith(']'):
+                    try:
+                        ext = int(ty[ty.rindex('[') + 1:-1])
+                    except ValueError:
+                        ext = None
+                elem = 1
+                if ext is not None:
+                    base_t = ty[:ty.rindex('[')].strip()
+                    elem = {'char': 1, 'unsigned char': 1, 'uint8_t': 1, 'int8_t': 1}.get(base_t)
+                if ext is not None and elem == 1:
+                    ok = 0 <= end <= ext
+                    why = 'destination + size is %s + %d, the array has %d bytes' % (arr, end, ext)
+                elif ext is not None:
+                    ok = szs[0].get('v') is not None and end <= szs[0]['v'] and ld[1] == 0 and not ld[0].keys() - {arr}
+                    why = 'destination %s, size %d of sizeof %s' % (arr, end, szs[0].get('of'))
+                else:
+                    why = 'the destination %s is not an array (the size is sizeof %s)' % (arr, szs[0].get('of'))
+            else:
+                why = 'destination %s with size %s: they do not add up to the end of one array' % (
+                    canon(f, D)[:40], canon(f, S)[:50])
+            ctx.ob('R15.5', '%s:%s#%d:size-measured-from-destination' % (f.name, c['callee'], k), ok, f.loc(c),
+                   'copy bounded by the end of the array (%s)' % why if ok else
+                   '%s(%s, .., %s): %s - the copy can run past the end of the array' % (
+                       c['callee'], canon(f, D)[:40], canon(f, S)[:50], why))
+    ctx.count('sizeof_bounded_copies', n_sites)
+
+
 def _index_bounded(ctx, f, at, idx, N):
     """on every path to `at` the index lvalue was compared so that idx < N"""
     base = idx
@@ -956,3 +1040,5 @@ def run(ctx):
     ctx.floor('R15.3', 2)
     r15_4(ctx)
     ctx.floor('R15.4', 2)
+    r15_5(ctx)
+    ctx.floor('R15.5', 20)
